@@ -299,9 +299,76 @@ def first_and_backwards(case, dummy):
         return None
 
 
+def two_streams_below_limit(n1, n2, s1, t1, s2, t2):
+    """C13.6 (engine CO): two streams consume tiny amounts from one LeakyBucket (demand far below the limit; the clock
+    advances by one second at every reading).  LeakyBucket.consume is a co-version generated from the source; the
+    interleaving has two preemptions at symbolic steps.  Traffic below the limit must never be delayed, the tracker's
+    clock must never run backwards and its rate must stay finite."""
+    import s3transfer.bandwidth as B
+    from vlib import co
+    if not hasattr(B.LeakyBucket, '_co_consume'):
+        co.make_co(B.LeakyBucket, ['consume'], B)
+
+    class Clock:
+        def __init__(self):
+            self.t = 0
+
+        def time(self):
+            self.t += 1
+            return self.t
+
+        def sleep(self, v):
+            pass
+    tr = BandwidthRateTracker()
+    b = LeakyBucket(10 ** 9, time_utils=Clock(), rate_tracker=tr)
+    b._lock = co.MLock()
+    bad = []
+    last = [None]
+
+    def stream(n):
+        tok = RequestToken()
+        for _ in range(3):
+            if _ < n:
+                try:
+                    yield from b._co_consume(1, tok)
+                except RequestExceededException:
+                    bad.append('bw: traffic below the limit was delayed')
+                    return
+
+    def watch():
+        lt = tr._last_time
+        if lt is not None:
+            if last[0] is not None and lt < last[0]:
+                return 'bw: the rate tracker\'s clock ran backwards'
+            last[0] = lt
+        cr = tr._current_rate
+        if cr is not None and cr == float('inf'):
+            return 'bw: infinite rate recorded'
+        return None
+    pre = []
+    if s1 >= 0:
+        pre.append((s1, t1))
+        if s2 >= 0:
+            pre.append((s1 + 1 + s2, t2))
+    sch = co.Scheduler(preempt=pre, max_steps=300)
+    v = sch.run([stream(n1), stream(n2)], watch)
+    if v:
+        return v if v.startswith('bw:') else 'bw: ' + v
+    if bad:
+        return bad[0]
+    return None
+
+
 _INT = ('thr: int, a1: int, e1: bool, a2: int, e2: bool, a3: int, e3: bool, closing_enabled: bool, retry: int')
 _RM = dict(real_model=True)
 OBLIGATIONS = [
+    dict(id='C13.6', impl='two_streams_below_limit', params='s1: int, t1: int, s2: int, t2: int',
+         cases=[(2, 2), (3, 1)], pre=['-1 <= s1 <= 24', '-1 <= s2 <= 24', '0 <= t1 <= 1', '0 <= t2 <= 1'],
+         splits=[['s1 <= 8'], ['8 < s1 <= 16'], ['16 < s1']], timeout=(170, 900),
+         bounds='2 streams x <= 3 consumes of 1 byte at 1 GB/s limit, clock +1 s per reading; statement-level '
+                'interleaving of LeakyBucket.consume with two preemptions at symbolic steps',
+         encodes=['LeakyBucket.consume (co-version from the source)', 'BandwidthRateTracker'],
+         assumptions=['co-versions generated from the source', 'integer clock']),
     dict(id='C13.1', impl='stream_accounting', params=_INT, cases=[(0, False), (1, False), (2, False), (0, True), (1, True)],
          pre=['1 <= thr', '0 <= a1 and 0 <= a2 and 0 <= a3', '1 <= retry'], timeout=(120, 600),
          bounds='3 reads of symbolic (unbounded) amounts with symbolic enabled flags, symbolic threshold, 0..2 refusals '
